@@ -21,12 +21,13 @@ type e2spec struct {
 	configs int
 	cases   int
 	maxS    float64
+	nenum   int // C05: configurations of the exhaustive 3-service family (4 shapes x 4^3 scope assignments = 256)
 }
 
 var engine2Tiers = map[string]map[string]e2spec{
-	"C05": {"quick": {24, 4800, 150}, "thorough": {96, 200000, 1500}},
-	"C15": {"quick": {24, 4800, 150}, "thorough": {96, 200000, 1500}},
-	"C20": {"quick": {20, 6400, 200}, "thorough": {64, 240000, 1800}},
+	"C05": {"quick": {24, 6400, 150, 64}, "thorough": {96, 240000, 1500, 256}},
+	"C15": {"quick": {24, 4800, 150, 0}, "thorough": {96, 200000, 1500, 0}},
+	"C20": {"quick": {20, 6400, 200, 0}, "thorough": {64, 240000, 1800, 0}},
 }
 
 // e2Violation mirrors the fields of rsim.Violation the driver needs.
@@ -220,7 +221,7 @@ func runEngine2(o opts) int {
 	// 1. draw the batch's configurations and push them through the (instrumented) build command
 	gendir := filepath.Join(s.Dir, "gen")
 	genJSON := filepath.Join(s.Dir, "genout.json")
-	cmd := exec.Command(s.Worker, "genbatch", "-prop", o.prop, "-seed", fmt.Sprint(o.seed), "-to", fmt.Sprint(spec.configs), "-file", gendir, "-out", genJSON)
+	cmd := exec.Command(s.Worker, "genbatch", "-prop", o.prop, "-seed", fmt.Sprint(o.seed), "-to", fmt.Sprint(spec.configs), "-from", fmt.Sprint(spec.nenum), "-file", gendir, "-out", genJSON)
 	cmd.Dir = s.Dir
 	if out, err := cmd.CombinedOutput(); err != nil {
 		fatal2("generating the batch's containers failed: %v\n%s", err, tailStr(string(out), 3000))
@@ -269,6 +270,22 @@ func runEngine2(o opts) int {
 	var m2 *e2Merged
 	if accepted-len(broken) > 0 {
 		m2 = runProbeWorkers(s, probe, o, spec.cases, spec.maxS, race)
+		if o.prop == "C15" {
+			// exhaustive family: every history of length <= 4 over a 10-operation alphabet on the small todo configuration
+			oo := o
+			oo.prop = "C15enum"
+			m3 := runProbeWorkers(s, probe, oo, 11110, spec.maxS, race)
+			m2.stats.Runs += m3.stats.Runs
+			m2.stats.Ops += m3.stats.Ops
+			addMap(m2.stats.OpKinds, m3.stats.OpKinds)
+			addMap(m2.stats.Probes, m3.stats.Probes)
+			addMap(m2.stats.PerConfig, m3.stats.PerConfig)
+			m2.stats.Probes["exhaustive-histories-up-to-length-4"] = m3.stats.Runs
+			for d := range m3.distinct {
+				m2.distinct[d] = true
+			}
+			m2.violations = append(m2.violations, m3.violations...)
+		}
 	} else {
 		m2 = &e2Merged{distinct: map[string]bool{}, interleave: map[string]bool{}}
 	}
@@ -416,6 +433,12 @@ func report2(o opts, s *prep.Scratch, probe string, g genOut, m1 *merged, m2 *e2
 				"blocking of sync.Mutex/RWMutex/Once (real primitives underneath via Try*, so happens-before edges are the real ones; writer preference modelled)", "user application code: fixture package fx (constructors, methods, decorators, parameter functions with event log, yields and injectable failures)", "process environment for env()/envInt()"},
 			"stub": []string{"fx stands in for user code"},
 		},
+	}
+	switch o.prop {
+	case "C15":
+		cov["exhaustive_subspace"] = fmt.Sprintf("all %d histories of length 1..4 over a 10-operation alphabet {GetParam p1|p2|p3, Get s1|s2|s3, OverrideParam p1:=value, p1:=param p3, p3:=provider, OverrideService s1} on the configuration {p1=%%todo()%%, p2=%%p1%%-x, p3=7, s1 todo, s2(@s1,%%p2%%), s3(%%p3%%)} were executed and compared with the model (count in probes)", 11110)
+	case "C05":
+		cov["exhaustive_subspace"] = fmt.Sprintf("%d configurations of the enumerated family (4 three-service shapes: argument chain, field+call fan-out, tag edge, decorator edge) x scope assignments {unset,shared,contextual,non_shared}^3 (256 in the thorough tier = the whole family) had their verdict compared with the legality model and, if accepted, were run under drawn histories", engine2Tiers["C05"][o.tier].nenum)
 	}
 	ev := &Evidence{PropertyID: o.prop, Tier: o.tier, Seed: int64(o.seed), Level: "exploration", Coverage: cov, Assumptions: assumptions2[o.prop], WallS: wall, Violations: newViol}
 	if evals == 0 {
